@@ -331,9 +331,13 @@ func (w *cllWalk) do(label string) {
 			(pre.Wl == nil || pre.Wl.Generation != pre.Wl.ObservedGeneration) && pre.Net.StableSel != nil {
 			w.noRevKey = true
 		}
-		// (the reconcile that notices a deletion still runs the Progressing branch — e.g. a reset of a superseded release — but
-		// since the fix "cursor reset" it clears the cursor that branch leaves: the exit clean-up starts from its first task.
-		// The deletion variant of finding abandonedCleanup is repaired; no flag here, the region is judged at full strength.)
+		// the reconcile that notices a deletion still runs the Progressing branch: a reset of a superseded release running for
+		// a Rollout that is already being deleted deletes the BatchRelease the exit clean-up would have to resume (the workload
+		// stays held back). The fix "cursor reset" clears the cursor that branch leaves — the exit clean-up starts from its
+		// first task — but does not keep the reset from running: this part of finding abandonedCleanup stays open.
+		if pre.Ro != nil && pre.Ro.Deleting && pre.Ro.Phase == "Progressing" && cllActivity(pre) == "reset" {
+			w.staleCursor = true
+		}
 		// a reset that is abandoned (the workload is back at the released revision, or rolled back) after it has deleted the
 		// BatchRelease leaves a release without BatchRelease: nothing resumes the workload at the end
 		if act := cllActivity(pre); act != "none" {
